@@ -184,6 +184,23 @@ def campaign(c):
         c.case(('stale',), dict(kind='stale-output'))
     finally:
         shutil.rmtree(d, ignore_errors=True)
+    # every kind of stateful object in each of two files: alone vs batch in both orders
+    body = ('import ipv4;\nimport gre;\nimport erspan2;\nimport vxlan;\nimport io;\nimport eth;\nimport dns;\n'
+            'let i = ipv4::icmp::flow(1.2.3.%d, 5.6.7.8);\ni.echo("a");\ni.echo_reply("a");\ni.echo("b");\n'
+            'let t = ipv4::tcp::flow(1.2.3.%d:1, 5.6.7.8:2);\nt.open();\nt.client_message("x");\n'
+            'let g = gre::session(1.1.1.%d, 2.2.2.2, 0x6558);\nlet e = erspan2::session(1.1.1.%d, 2.2.2.2);\n'
+            'e.encap(g.encap(t.client_message("y")));\ne.encap(i.echo("c"));\ndns::host(9.9.9.%d, "a.b");\n'
+            'let b = io::bufio("abcdef");\neth::frame("|000000000001|", "|000000000002|", b.read(2), b.read(2));\n')
+    files = {'sa': (body % (1, 1, 1, 1, 1)).encode(), 'sb': (body % (2, 2, 2, 2, 2)).encode(), 'sc': (body % (3, 3, 3, 3, 3)).encode()}
+    alone = {}
+    for nme, srcb in files.items():
+        res, per, rc, err = run_at({nme: srcb}, [nme], ENVS[0], None, 'o'); alone[nme] = res[nme]
+    for order in (['sa', 'sb', 'sc'], ['sc', 'sb', 'sa'], ['sb', 'sa']):
+        res, per, rc, err = run_at(files, order, ENVS[1], None, 'o')
+        for nme in order:
+            if res[nme] != alone[nme]:
+                c.violation('det:batch-state', 'the output of %s.rsyn depends on the files compiled before it in the same invocation (%s)' % (nme, order), dict(src=files[nme].decode()))
+        c.case(('batch-state', tuple(order)), dict(kind='batch-state', order=order))
     # batches: same files together, in two orders, with failing members
     names = list(progs)
     for b in range(6 if c.quick else 60):
